@@ -1,21 +1,23 @@
-// wrappers: HLL register arrays at the unit level (C03): Hll4Array / Hll6Array / Hll8Array driven with coupons
+// wrappers: HLL register arrays at the unit level (C03): Hll4Array / Hll6Array / Hll8Array driven with coupons.
+// All calls are qualified (non-virtual): cbmc replaces a virtual call by a case split over every function of the same type, which
+// drags list/set promotion and copy code into every update.
 #include "hll.hpp"
 using namespace datasketches;
 typedef std::allocator<uint8_t> A;
-typedef HllArray<A> Arr;
-WRAP Arr* w_hll_arr_new(uint8_t type, uint8_t lg_k) {
-  try { if (type == 4) return new Hll4Array<A>(lg_k, true, A()); if (type == 6) return new Hll6Array<A>(lg_k, true, A()); return new Hll8Array<A>(lg_k, true, A()); } catch (...) { return nullptr; }
-}
-WRAP void w_hll_arr_delete(Arr* a) { delete a; }
-WRAP int w_hll_arr_coupon(Arr* a, uint32_t coupon) { try { auto r = a->couponUpdate(coupon); return r == a ? 0 : 2; } catch (...) { return 1; } }
-// logical register values through the array's own iterator over all slots; returns the number of slots seen
-WRAP int32_t w_hll_arr_values(const Arr* a, uint8_t* out, uint32_t cap) {
-  try { uint32_t n = 0; auto it = a->begin(true); auto e = a->end(); for (; it != e; ++it) { uint32_t p = *it; uint32_t slot = p & 0x3ffffff; if (slot < cap) out[slot] = (uint8_t)(p >> 26); ++n; } return (int32_t)n; } catch (...) { return -1; }
-}
-WRAP uint8_t w_hll_arr_is_empty(const Arr* a) { return a->isEmpty(); }
-WRAP uint8_t w_hll_arr_cur_min(const Arr* a) { return a->getCurMin(); }
-WRAP uint32_t w_hll_arr_num_at_cur_min(const Arr* a) { return a->getNumAtCurMin(); }
-// conversion to another register width (copy constructors used by hll_sketch(const hll_sketch&, target_hll_type))
-WRAP Arr* w_hll_arr_convert(const Arr* a, uint8_t type) {
-  try { if (type == 4) return new Hll4Array<A>(*a); if (type == 6) return new Hll6Array<A>(*a); return new Hll8Array<A>(*a); } catch (...) { return nullptr; }
-}
+typedef Hll4Array<A> H4; typedef Hll6Array<A> H6; typedef Hll8Array<A> H8;
+#define ARR(P, T, TYPE) \
+WRAP T* w_##P##_new(uint8_t lg_k) { try { return new T(lg_k, true, A()); } catch (...) { return nullptr; } } \
+WRAP void w_##P##_delete(T* a) { a->T::~T(); ::operator delete(a); } \
+WRAP int w_##P##_coupon(T* a, uint32_t coupon) { try { auto r = a->T::couponUpdate(coupon); return r == a ? 0 : 2; } catch (...) { return 1; } } \
+/* logical register value of one slot, computed by the library's own accessor used by its iterators */ \
+WRAP int w_##P##_value(const T* a, uint32_t slot) { try { return HllArray<A>::const_iterator::get_value(a->hllByteArr_.data(), slot, TYPE, a->T::getAuxHashMap(), a->curMin_); } catch (...) { return -1; } } \
+WRAP uint8_t w_##P##_is_empty(const T* a) { return a->HllArray<A>::isEmpty(); } \
+WRAP uint8_t w_##P##_cur_min(const T* a) { return a->curMin_; } \
+WRAP uint32_t w_##P##_num_at_cur_min(const T* a) { return a->numAtCurMin_; }
+ARR(h4, H4, target_hll_type::HLL_4)
+ARR(h6, H6, target_hll_type::HLL_6)
+ARR(h8, H8, target_hll_type::HLL_8)
+// conversion constructors (used by hll_sketch(const hll_sketch&, target_hll_type))
+WRAP H8* w_h8_from_h4(const H4* a) { try { return new H8(*a); } catch (...) { return nullptr; } }
+WRAP H6* w_h6_from_h4(const H4* a) { try { return new H6(*a); } catch (...) { return nullptr; } }
+WRAP H4* w_h4_from_h8(const H8* a) { try { return new H4(*a); } catch (...) { return nullptr; } }
